@@ -9,6 +9,7 @@ Rust functions modelled:
   File::push_section_internal and the lookup tree (`section_ids_by_name_and_subname`)   file/util.rs
   SectionMut::{new, push, set, remove, push_newline, remove_internal, set_internal, delete}  file/mutable/section.rs
   ValueMut::set (via raw_value_mut)                                 file/mutable/value.rs, file/access/raw.rs
+  MultiValueMut::{set_all, set_at, delete, delete_all} (via raw_values_mut_by)   file/mutable/multi_value.rs, file/access/raw.rs
   mutable::{escape_value, Whitespace::{from_body, key_value_separators, default}}  file/mutable/mod.rs
   section::Header::new (validation)                                 parse/section/header.rs
   ValueName::try_from (validation)                                  parse/section/mod.rs
@@ -182,6 +183,43 @@ def valueMutSet (w : Ws) (body : List Event) (key value : Bytes) (idx size : Nat
   let b := body.take idx ++ body.drop (idx + size)
   b.take idx ++ [.name key] ++ w.seps.reverse ++ [.value (escapeValue value)] ++ b.drop idx
 
+/-- the scan of `raw_values_mut_filter_inner` over one body: the `(start, length)` of every
+`name … value` span of the key (a span starts at the latest matching name and ends with the next
+`Value` / `ValueDone`) -/
+def mvSpansGo (key : Bytes) : List (Nat × Event) → Bool → Nat → List (Nat × Nat)
+  | [], _, _ => []
+  | (i, e) :: rest, expect, start =>
+    match e with
+    | .name k => if eqIgnoreCase k key then mvSpansGo key rest true i else mvSpansGo key rest expect start
+    | .value _ => if expect then (start, i - start + 1) :: mvSpansGo key rest false start else mvSpansGo key rest expect start
+    | .done _ => if expect then (start, i - start + 1) :: mvSpansGo key rest false start else mvSpansGo key rest expect start
+    | _ => mvSpansGo key rest expect start
+
+def mvSpans (key : Bytes) (body : List Event) : List (Nat × Nat) := mvSpansGo key (indexed body) false 0
+
+/-- `MultiValueMut::set_value_inner` on the `j`-th span of the current body -/
+def mvSetNth (body : List Event) (key value : Bytes) (j : Nat) : List Event :=
+  match (mvSpans key body)[j]? with
+  | some (st, len) => valueMutSet (Ws.fromBody body) body key value st len
+  | none => body
+
+/-- `set_all` within one body: spans are rewritten first to last (offsets are kept up to date by
+`set_offset`, which is the same as looking the `j`-th span up again) -/
+def mvSetAllBody (key value : Bytes) : Nat → Nat → List Event → List Event
+  | 0, _, body => body
+  | n + 1, j, body => mvSetAllBody key value n (j + 1) (mvSetNth body key value j)
+
+/-- `delete` of the `j`-th span: the events are drained, nothing else -/
+def mvDeleteNth (body : List Event) (key : Bytes) (j : Nat) : List Event :=
+  match (mvSpans key body)[j]? with
+  | some (st, len) => body.take st ++ body.drop (st + len)
+  | none => body
+
+/-- `delete_all` within one body (last span first, so that the earlier positions stay valid) -/
+def mvDeleteAllBody (key : Bytes) : Nat → List Event → List Event
+  | 0, body => body
+  | n + 1, body => mvDeleteAllBody key n (mvDeleteNth body key n)
+
 /-! ### validation -/
 
 def validName (n : Bytes) : Bool := n.all isNameChar
@@ -231,6 +269,11 @@ def sectionMut (f : FileS) (sec : Bytes) (sub : Option Bytes) : Outcome Nat :=
     | none => .err .sectionMissing   -- `remove_section` leaves empty id lists behind
 
 def bodyAt (f : FileS) (i : Nat) : List Event := (f.sections[i]?.map (·.body)).getD []
+
+/-- the `n`-th entry over sections in file order: (section position, index within the section) -/
+def locate : List (Nat × Nat) → Nat → Option (Nat × Nat)
+  | [], _ => none
+  | (i, c) :: rest, n => if n < c then some (i, n) else locate rest (n - c)
 
 /-- one API call: the new file and whether the call reported success -/
 def apply (f : FileS) : Op → Outcome FileS
@@ -300,6 +343,63 @@ def apply (f : FileS) : Op → Outcome FileS
         .ok (register (modifySec f i fun s =>
           { s with header := h, regName := lowerName h.name, regSub := h.sub }) h)
 
+/-! ### `MultiValueMut` (one handle per call: `raw_values_mut_by(sec, sub, key)?` and one method) -/
+
+inductive MOp
+  /-- `set_all(value)` -/
+  | mvSetAll (sec : Bytes) (sub : Option Bytes) (key value : Bytes)
+  /-- `set_at(n % len, value)` -/
+  | mvSetAt (sec : Bytes) (sub : Option Bytes) (key : Bytes) (n : Nat) (value : Bytes)
+  /-- `delete(n % len)` -/
+  | mvDelete (sec : Bytes) (sub : Option Bytes) (key : Bytes) (n : Nat)
+  /-- `delete_all()` -/
+  | mvDeleteAll (sec : Bytes) (sub : Option Bytes) (key : Bytes)
+  deriving Repr, DecidableEq
+
+def applyM (f : FileS) : MOp → Outcome FileS
+  | .mvSetAll sec sub key value =>
+    match idsBy f sec sub with
+    | .error e => .err e
+    | .ok ids =>
+      if (ids.map fun i => (mvSpans key (bodyAt f i)).length).sum == 0 then .err .keyMissing
+      else .ok (ids.foldl (fun acc i =>
+        modifySec acc i fun s => { s with body := mvSetAllBody key value (mvSpans key s.body).length 0 s.body }) f)
+  | .mvSetAt sec sub key n value =>
+    match idsBy f sec sub with
+    | .error e => .err e
+    | .ok ids =>
+      let total := (ids.map fun i => (mvSpans key (bodyAt f i)).length).sum
+      if total == 0 then .err .keyMissing
+      else match locate (ids.map fun i => (i, (mvSpans key (bodyAt f i)).length)) (n % total) with
+        | some (i, j) => .ok (modifySec f i fun s => { s with body := mvSetNth s.body key value j })
+        | none => .panic
+  | .mvDelete sec sub key n =>
+    match idsBy f sec sub with
+    | .error e => .err e
+    | .ok ids =>
+      let total := (ids.map fun i => (mvSpans key (bodyAt f i)).length).sum
+      if total == 0 then .err .keyMissing
+      else match locate (ids.map fun i => (i, (mvSpans key (bodyAt f i)).length)) (n % total) with
+        | some (i, j) => .ok (modifySec f i fun s => { s with body := mvDeleteNth s.body key j })
+        | none => .panic
+  | .mvDeleteAll sec sub key =>
+    match idsBy f sec sub with
+    | .error e => .err e
+    | .ok ids =>
+      if (ids.map fun i => (mvSpans key (bodyAt f i)).length).sum == 0 then .err .keyMissing
+      else .ok (ids.foldl (fun acc i =>
+        modifySec acc i fun s => { s with body := mvDeleteAllBody key (mvSpans key s.body).length s.body }) f)
+
+/-- a call of either kind -/
+inductive AnyOp
+  | single (op : Op)
+  | multi (op : MOp)
+  deriving Repr, DecidableEq
+
+def applyAny (f : FileS) : AnyOp → Outcome FileS
+  | .single op => apply f op
+  | .multi op => applyM f op
+
 /-! ### driver -/
 
 def errName : Err → String
@@ -313,22 +413,26 @@ def errName : Err → String
 def optB (s : String) : Option (Option Bytes) :=
   if s == "~" then some none else (bytesOfHex s).map some
 
-def parseOp (s : String) : Option Op :=
+def parseOp (s : String) : Option AnyOp :=
   match s.splitOn ":" with
-  | ["set", a, b, c, d] => do some (.set (← bytesOfHex a) (← optB b) (← bytesOfHex c) (← bytesOfHex d))
-  | ["setx", a, b, c, d] => do some (.setExisting (← bytesOfHex a) (← optB b) (← bytesOfHex c) (← bytesOfHex d))
-  | ["push", a, b, c, d] => do some (.push (← bytesOfHex a) (← optB b) (← bytesOfHex c) (← optB d))
-  | ["rm", a, b, c] => do some (.remove (← bytesOfHex a) (← optB b) (← bytesOfHex c))
-  | ["new", a, b] => do some (.newSection (← bytesOfHex a) (← optB b))
-  | ["rmsec", a, b] => do some (.removeSection (← bytesOfHex a) (← optB b))
-  | ["mv", a, b, c, d] => do some (.rename (← bytesOfHex a) (← optB b) (← bytesOfHex c) (← optB d))
+  | ["set", a, b, c, d] => do some (.single (.set (← bytesOfHex a) (← optB b) (← bytesOfHex c) (← bytesOfHex d)))
+  | ["setx", a, b, c, d] => do some (.single (.setExisting (← bytesOfHex a) (← optB b) (← bytesOfHex c) (← bytesOfHex d)))
+  | ["push", a, b, c, d] => do some (.single (.push (← bytesOfHex a) (← optB b) (← bytesOfHex c) (← optB d)))
+  | ["rm", a, b, c] => do some (.single (.remove (← bytesOfHex a) (← optB b) (← bytesOfHex c)))
+  | ["new", a, b] => do some (.single (.newSection (← bytesOfHex a) (← optB b)))
+  | ["rmsec", a, b] => do some (.single (.removeSection (← bytesOfHex a) (← optB b)))
+  | ["mv", a, b, c, d] => do some (.single (.rename (← bytesOfHex a) (← optB b) (← bytesOfHex c) (← optB d)))
+  | ["mvall", a, b, c, d] => do some (.multi (.mvSetAll (← bytesOfHex a) (← optB b) (← bytesOfHex c) (← bytesOfHex d)))
+  | ["mvat", a, b, c, n, d] => do some (.multi (.mvSetAt (← bytesOfHex a) (← optB b) (← bytesOfHex c) (← n.toNat?) (← bytesOfHex d)))
+  | ["mvdel", a, b, c, n] => do some (.multi (.mvDelete (← bytesOfHex a) (← optB b) (← bytesOfHex c) (← n.toNat?)))
+  | ["mvdelall", a, b, c] => do some (.multi (.mvDeleteAll (← bytesOfHex a) (← optB b) (← bytesOfHex c)))
   | _ => none
 
 /-- run a history; after every call print its status and the serialized file -/
-def runHist : FileS → List Op → List String
+def runHist : FileS → List AnyOp → List String
   | _, [] => []
   | f, op :: rest =>
-    match apply f op with
+    match applyAny f op with
     | .ok f1 => s!"ok:{hexOfBytes f1.write}" :: runHist f1 rest
     | .err e => s!"err-{errName e}:{hexOfBytes f.write}" :: runHist f rest
     | .panic => ["panic"]
